@@ -173,10 +173,10 @@ pub fn run(seed: u64, n: usize, work: &Path, env_allow: bool, only: Option<usize
             let (res, kind) = if full {
                 (mgr.create_full_backup(format!("s{}b{}", i, k)), "None".to_string())
             } else if r.chance(1, 12) {
-                (mgr.create_incremental_backup(Uuid::from_u128(0xdead_0000 + k as u128), "orphan".into()), "(Some None)".to_string())
+                (mgr.create_incremental_backup(Uuid::from_u128(0xdead_0000 + k as u128), "orphan".into()), format!("(Some ({}, 9999))", meta_store_literal(&metas)))
             } else {
                 let p = if r.chance(3, 4) { metas.last().unwrap().clone() } else { r.pick(&metas).clone() };
-                (mgr.create_incremental_backup(p.id, format!("s{}b{}", i, k)), format!("(Some (Some ({}, {})))", p.timestamp, opt_n(p.max_wal_file_id)))
+                (mgr.create_incremental_backup(p.id, format!("s{}b{}", i, k)), format!("(Some ({}, {}))", meta_store_literal(&metas), store_index(&metas, p.id)))
             };
             let obs = match &res { Ok(m) => created_literal(&mut ab, &bk, m), Err(e) => format!("(Err {})", create_err_class(&format!("{:#}", e))) };
             let cid = acc.new_case(json!({"stage": "D", "kind": "create", "scenario": i, "step": k, "full": full, "env_allow": env_allow, "replay": rep}));
